@@ -18,7 +18,8 @@ def gen_program(r, big=False):
             k = r.choice([1, 1, 1, 2])
             c = r.random()
             if c < 0.4:
-                ops.append("acquire %d %s" % (k, r.choice(["ok", "ok", "ok", "fail", "slow50", "slow300"])))
+                ops.append("acquire %d %s %d" % (k, r.choice(["ok", "ok", "ok", "fail", "slow50", "slow300", "slowfail50", "slowfail300"]),
+                                                 r.choice([0, 0, 0, 50, 300, 1000, 10 ** 9])))
             elif c < 0.7:
                 ops.append("release %d %d" % (k, 1 if r.random() < 0.25 else 0))
             elif c < 0.9:
@@ -35,23 +36,32 @@ def oracle(prog, trace):
     refs, obj_of, constructing = {}, {}, set()   # key -> count ; key -> live object ; keys under construction
     call = {}
     recyclers = {}
+    ran, last_fail = {}, {}
     for l in trace:
         w = l.split()
         if w[0] == "call":
             call[w[1]] = w
+            ran[w[1]] = False
         elif w[0] == "ctor_begin":
+            ran[w[2]] = True
             k = int(w[1])
             if k in constructing:
                 out.append("constructor for key %d started while another one is running" % k)
             constructing.add(k)
         elif w[0] == "ctor_end":
             k = int(w[1]); constructing.discard(k)
+            if int(w[2]) < 0:
+                last_fail[k] = int(w[3][1:])
             if int(w[2]) >= 0:
                 if k in obj_of:
                     out.append("second live object constructed for key %d" % k)
                 obj_of[k] = int(w[2])
         elif w[0] == "ret" and w[2] == "acquire":
             c = call[w[1]]; k = int(c[3]); o = int(w[3])
+            if o < 0 and not ran.get(w[1]):
+                cd, t1 = int(c[5]), int(w[4][1:])
+                if k not in last_fail or t1 >= last_fail[k] + cd:
+                    out.append("acquire(%d, cooldown %d) returned null without trying the constructor although no failure lies within the cooldown" % (k, cd))
             if o >= 0:
                 if obj_of.get(k) != o:
                     out.append("acquire(%d) returned object %d but the key's live object is %s" % (k, o, obj_of.get(k)))
@@ -144,6 +154,13 @@ def run(rep, tier, seed, replay=None):
             if any(v in unlisted for v in viol):
                 rep.violation("counterexample", dict(harness="hsim_objcache", program=p, expected=[v for v in unlisted if v in viol][0],
                                                      model_verdict=rej, trace=res.trace[-30:]))
+            elif res.trace[res.reject[0]].split()[0] in ("ret", "call", "dtor", "ctor_begin", "ctor_end", "q"):
+                # the automaton's events are the externally visible behaviour of the cache (API calls/returns, constructor and
+                # destructor invocations): the rejected history is itself the failing input
+                i = res.reject[0]
+                rep.violation("counterexample", dict(harness="hsim_objcache", program=p,
+                                                     expected="Lean automaton rejected `%s`: %s" % (res.trace[i], rej),
+                                                     trace=res.trace[max(0, i - 25):i + 1]))
             else:
                 i = res.reject[0]
                 rep.violation("unverified", dict(broken="correspondence hsim_objcache vs Lean automaton `objcache`: history rejected",
